@@ -1,11 +1,14 @@
 import json, sys
+import os
 pid = sys.argv[1]
+ROOT = os.environ.get("SEED_ROOT", "/tmp/seed3")
 tests = {"C17":"test_ibldsp.py","C10":"test_ibldsp.py test_spikeglx.py","C18":"test_ibldsp.py","C07":"test_ibldsp.py test_waveforms.py","C20":"test_ibldsp.py","C05":"test_ibldsp.py","C16":"test_ibldsp.py","C15":"test_ibldsp.py",
  "C01":"test_spikeglx.py test_neuropixel.py","C02":"test_spikeglx.py","C09":"test_spikeglx.py","C11":"test_spikeglx.py","C08":"test_spikeglx.py test_neuropixel.py",
  "C03":"test_ephys_np2.py test_spikeglx.py","C04":"test_ephys_np2.py","C12":"test_ephys_np2.py","C13":"test_waveforms.py","C14":"test_waveforms.py","C06":"test_ibldsp.py test_spikeglx.py"}[pid]
-prev = json.load(open("/tmp/seed3/prev.json")).get(pid, [])
-prop = open(f"/tmp/seed3/{pid}.property.json").read()
-W = f"/tmp/seed3/{pid}"
+prev = json.load(open(ROOT + "/prev.json")).get(pid, [])
+HINT = (os.environ.get("SEED_HINT", "").strip() + " ") if os.environ.get("SEED_HINT") else ""
+prop = open(f"{ROOT}/{pid}.property.json").read()
+W = f"{ROOT}/{pid}"
 print(f"""You are helping to test a verification effort by producing realistic property-breaking code changes ("seeded defects").
 
 Work ONLY inside the git worktree at {W} (a checkout of the Python project int-brain-lab/ibl-neuropixel: source under src/, tests under src/tests/). Do NOT read or write anything under /verif or /repo, and do not create other worktrees.
@@ -29,6 +32,6 @@ Verify yourself for each change: demo.py exits 0 on the clean tree, non-zero wit
 
 Ideas that were ALREADY used in an earlier round - do NOT repeat these or close variants of them, pick other code sites / other clauses of the property / other mechanisms:
 {chr(10).join(' - ' + p for p in prev)}
-Prefer slips in the functions named under "anchors" or in helpers they call: wrong boundary (< vs <=, off-by-one), wrong axis or order of operands, a stale or shared value reused across calls, an operation applied to one element too many / too few, a dropped or defaulted argument, a condition that is only wrong for an unusual but legal input. Cover a clause of the statement that the earlier ideas did not touch if there is one.
+{HINT}Prefer slips in the functions named under "anchors" or in helpers they call: wrong boundary (< vs <=, off-by-one), wrong axis or order of operands, a stale or shared value reused across calls, an operation applied to one element too many / too few, a dropped or defaulted argument, a condition that is only wrong for an unusual but legal input. Cover a clause of the statement that the earlier ideas did not touch if there is one.
 
 Finish with a short report: for each change one paragraph on what it does, what it needs to manifest, and the verification you ran.""")
